@@ -69,6 +69,130 @@ def first_foreign(cs):
     return None
 
 
+# ---------------------------------------------------------------- docenc tool level
+def gen_docs(c, delim):
+    """document sequences: structured mostly-valid + adversarial (CR, blank-looking lines)"""
+    rng = c.rng
+    alphabet = [b"a", b"b", b"\r", b" ", b"\xc3\xa9", b"\xff", b"="]
+    if delim == 0:
+        alphabet += [b"\n", b"\n\n"]
+    else:
+        alphabet += [b"\x00"]
+    cases = []
+    n_cases = 60 if c.tier == "quick" else 600
+    for _ in range(n_cases):
+        docs = []
+        for _ in range(rng.randrange(0, 5)):
+            if delim == 10:
+                lines = []
+                for _ in range(rng.randrange(0, 4)):
+                    l = b"".join(rng.choice(alphabet) for _ in range(rng.randrange(1, 5)))
+                    lines.append(l)
+                docs.append(b"".join(l + b"\n" for l in lines))
+            else:
+                docs.append(b"".join(rng.choice(alphabet) for _ in range(rng.randrange(0, 6))))
+        cases.append(docs)
+    # targeted: CR at end of line, a line that is only CR, CR before separator, empty docs, many docs
+    if delim == 10:
+        cases += [[b"a\r\nb\n"], [b"x\n\r\ny\n"], [b"\r\n"], [b"", b"a\n", b""], [b"a\n"] * 7, [b""], []]
+    else:
+        cases += [[b"abc\r"], [b"\r"], [b"", b"a", b""], [b"a\nb\n\nc"], [b""], []]
+    return cases
+
+
+def docenc_tool(c, drv):
+    exe = repo_bin("docenc")
+    rng = c.rng
+    import base64 as b64
+    model_lines, runs = [], []
+    for delim in (10, 0):
+        flag = ["-0"] if delim == 0 else []
+        for docs in gen_docs(c, delim):
+            b64file = b"".join(b64.b64encode(d) + b"\n" for d in docs)
+            # (1) property oracle: docenc -d | docenc reproduces the base64 file
+            st1, out1, err1 = run_tool([exe, "-d", "-q"] + flag, b64file, timeout=20)
+            st2, out2, err2 = run_tool([exe] + flag, out1, timeout=20) if st1 == 0 else (None, b"", b"")
+            c.count(("docenc-rt", delim, b64file), nontrivial=len(docs) > 0, bucket="docenc-roundtrip/delim=%d" % delim)
+            if len(c.cov["samples"]) < 5:
+                c.sample({"op": "docenc -d | docenc", "delim": delim, "docs": [repr(d) for d in docs]})
+            if st1 != 0 or st2 != 0 or out2 != b64file:
+                c.violation("docenc-roundtrip: docenc -d %s| docenc %sdoes not reproduce documents %r: got %r (status %s/%s)" % (
+                    "-0 " if delim == 0 else "", "-0 " if delim == 0 else "", docs, out2[:200], st1, st2),
+                    {"op": "docenc-roundtrip", "delim": delim, "b64_input_hex": hexs(b64file), "output_hex": hexs(out2), "status": [st1, st2],
+                     "how": "printf <b64 input> | docenc -d -q %s| docenc %s" % (" ".join(flag), " ".join(flag))})
+            # (2) correspondence with the model, decode and encode separately
+            model_lines.append("TD %d - %s" % (delim, hexs(b64file)))
+            runs.append(([exe, "-d", "-q"] + flag, b64file))
+            model_lines.append("TE %d - %s" % (delim, hexs(out1)))
+            runs.append(([exe] + flag, out1))
+            # (3) index selection
+            n = len(docs)
+            for _ in range(2):
+                k = rng.randrange(1, 4)
+                idx = [rng.randrange(1, n + 3) for _ in range(k)]
+                if rng.random() < 0.15:
+                    idx.append(0)
+                args = []
+                want = set()
+                for i in idx:
+                    if rng.random() < 0.3 and i > 0:
+                        j = i + rng.randrange(0, 3)
+                        args.append("%d-%d" % (i, j))
+                        want |= set(range(i, j + 1))
+                    else:
+                        args.append(str(i))
+                        want.add(i)
+                flat = []
+                for a in args:
+                    if "-" in a:
+                        lo, hi = a.split("-")
+                        flat += list(range(int(lo), int(hi) + 1))
+                    else:
+                        flat.append(int(a))
+                st, out, err = run_tool([exe, "-d", "-q"] + flag + args, b64file, timeout=20)
+                c.count(("docenc-idx", delim, tuple(args), b64file), nontrivial=n > 0, bucket="docenc-index/delim=%d" % delim)
+                model_lines.append("TD %d %s %s" % (delim, ",".join(map(str, flat)), hexs(b64file)))
+                runs.append(([exe, "-d", "-q"] + flag + args, b64file))
+                if 0 in want:
+                    continue    # index 0 is rejected with a usage error (model says USAGE)
+                expect = b"".join(docs[i - 1] + bytes([delim]) for i in sorted(want) if 1 <= i <= n)
+                if st != 0 or out != expect:
+                    c.violation("docenc-index: docenc -d %s selected %r, expected documents %s = %r" % (" ".join(args), out[:200], sorted(want), expect[:200]),
+                                {"op": "docenc-index", "delim": delim, "args": args, "b64_input_hex": hexs(b64file), "output_hex": hexs(out), "expected_hex": hexs(expect), "status": st})
+    # malformed stream for the correspondence only: arbitrary bytes into both modes
+    for _ in range(40 if c.tier == "quick" else 400):
+        raw = bytes(rng.choice(b"aQ=\n\r\x00\x7f\xff \n\n") for _ in range(rng.randrange(0, 14)))
+        d = rng.choice((10, 0))
+        flag = ["-0"] if d == 0 else []
+        model_lines.append("TD %d - %s" % (d, hexs(raw)))
+        runs.append(([exe, "-d", "-q"] + flag, raw))
+        model_lines.append("TE %d - %s" % (d, hexs(raw)))
+        runs.append(([exe] + flag, raw))
+        c.count(("docenc-raw", d, raw), nontrivial=len(raw) > 0, bucket="docenc-malformed")
+    if drv is None:
+        return
+    rc, mout, err = run_lines(drv, model_lines)
+    if len(mout) != len(model_lines):
+        c.broken.append("correspondence docenc: driver failed rc=%s %s" % (rc, err[-300:]))
+        return
+    dis = 0
+    for ml, mo, (argv, stdin) in zip(model_lines, mout, runs):
+        st, out, err = run_tool(argv, stdin, timeout=20)
+        if st == 0:
+            io = "OK " + hexs(out)
+        elif st == -6:
+            io = "ABORT"
+        elif st == 1:
+            io = "USAGE"
+        else:
+            io = "STATUS %s" % st
+        c.cov["traces_validated_against_impl"] += 1
+        if io != mo:
+            dis += 1
+            if dis == 1:
+                c.broken.append("correspondence docenc model vs bin/docenc: case %r (argv %s): model=%s impl=%s" % (ml[:120], " ".join(argv[1:]), mo[:120], io[:120]))
+
+
 def main(argv):
     c = Check("C09", argv)
     ok, blog = build_repo(["hx_base64", "docenc"])
@@ -124,8 +248,9 @@ def main(argv):
                     if o != "OK " + hexs(raw):
                         c.violation("roundtrip: decode(%r) gave %s expected %s" % (b, o, hexs(raw)),
                                     {"op": "decode", "input_hex": hexs(b), "impl": o, "expected_hex": hexs(raw)})
+    docenc_tool(c, drv)
     return c.finish(level="proof",
-                    rule="encode: all byte strings of length 0-2 exhaustively + random/boundary strings to 4 KiB; decode: canonical encodings with 0..2 pads removed, every byte value inserted/substituted at every offset of encodings of 0-6 bytes, two-byte corruptions at a block boundary, pad-only strings, random bytes. distinct = distinct non-empty inputs",
+                    rule="encode: all byte strings of length 0-2 exhaustively + random/boundary strings to 4 KiB; decode: canonical encodings with 0..2 pads removed, every byte value inserted/substituted at every offset of encodings of 0-6 bytes, two-byte corruptions at a block boundary, pad-only strings, random bytes; docenc: random and targeted document sequences (CR at line ends, CR-only lines, empty documents, NUL/newline content) for both separators through `docenc -d | docenc`, index lists with duplicates, overlapping ranges, out-of-range and 0, arbitrary bytes into both modes (model correspondence only). distinct = distinct non-empty inputs",
                     assumptions=["util::Exception from base64_decode = error; std::length_error from reserve() = error",
                                  "bytes are modelled as Z in [0,256); `int val` as 32-bit two's complement wrap (g++ behaviour)"])
 
